@@ -3,6 +3,7 @@ let run_job (job : Sx.t) : string =
   match Sx.head job with
   | "ssa" -> Jcirc.job_ssa job
   | "reg" -> Jcirc.job_reg job
+  | "regalloc" -> Jcirc.job_regalloc job
   | k -> Printf.sprintf "(unknown-kind %s)" k
 
 let () =
